@@ -430,7 +430,14 @@ class Harness:
         nf = nimpf + len(m.funcs)
         w('/* generated E2 harness: reference rendering vs real w2c2 output */')
         w('#include "vh.h"')
+        w('#ifndef REPLAY')
+        w('/* CBMC models sqrt nondeterministically; both sides use one uninterpreted function instead */')
+        w('float __CPROVER_uninterpreted_sqrtf(float); double __CPROVER_uninterpreted_sqrt(double);')
+        w('float sqrtf(float x) { return __CPROVER_uninterpreted_sqrtf(x); }')
+        w('double sqrt(double x) { return __CPROVER_uninterpreted_sqrt(x); }')
+        w('#endif')
         w('#include "ref_ops.h"')
+        w('#define R_BULK_MAX 6')
         w('#include "%s.h"' % mod)
         w('#define RMEM_BYTES %d' % max(1, self.ref_pages * 65536))
         w('#define RTAB_SLOTS %d' % max(1, self.tab_slots))
@@ -459,7 +466,6 @@ class Harness:
         w('  if (n > R_BULK_MAX) { R_stop = 1; return; } for (k = 0; k < R_BULK_MAX; k++) if (k < n) tmp[k] = S->mem->data[s + k]; for (k = 0; k < R_BULK_MAX; k++) if (k < n) S->mem->data[d + k] = tmp[k]; }')
         w('static void R_init(RState* S, const uint8_t* seg, uint32_t seglen, uint32_t d, uint32_t s, uint32_t n) { uint32_t k; if ((uint64_t)d + n > (uint64_t)S->mem->pages * 65536ull || (uint64_t)s + n > seglen) { R_stop = 1; return; }')
         w('  for (k = 0; k < seglen; k++) if (k < n) S->mem->data[d + k] = seg[s + k]; }')
-        o.insert(3, '#define R_BULK_MAX 6')
         # host calls
         w('static uint64_t R_host(RState* S, int id, int n, uint64_t a0, uint64_t a1, uint64_t a2, uint64_t a3) {')
         w('  HCall* c; if (R_ncalls >= MAXC) { R_stop = 1; return 0; } c = &R_calls[R_ncalls++];')
